@@ -40,15 +40,23 @@ impl MergeDict {
 
 impl Object for MergeDict {
     fn get_value(self: &Arc<Self>, key: &Value) -> Option<Value> {
-        // Look up key in reverse order (last matching dict wins)
+        // Look up key in reverse order (last matching dict wins).  A key whose
+        // entries all hold undefined values is still a key of the merged dictionary
+        // (it is listed by `enumerate`), so it must be found.
+        let mut present = false;
         for value in self.values.iter().rev() {
-            if let Ok(v) = value.get_item(key) {
+            if let Some(v) = value.get_item_opt(key) {
                 if !v.is_undefined() {
                     return Some(v);
                 }
+                present = true;
             }
         }
-        None
+        if present {
+            Some(Value::UNDEFINED)
+        } else {
+            None
+        }
     }
 
     fn enumerate(self: &Arc<Self>) -> Enumerator {
